@@ -9,8 +9,10 @@ package main
 
 import (
 	"fmt"
+	"github.com/bytom/bytom/protocol/state"
 	"os"
 	"strings"
+	"time"
 
 	dbm "github.com/bytom/bytom/database/leveldb"
 )
@@ -38,7 +40,7 @@ func (l *logDB) Delete(k []byte) {
 	l.DB.Delete(cp(k))
 }
 func (l *logDB) DeleteSync(k []byte) { l.Delete(k) }
-func (l *logDB) NewBatch() dbm.Batch  { return &logBatch{db: l} }
+func (l *logDB) NewBatch() dbm.Batch { return &logBatch{db: l} }
 
 type logBatch struct {
 	db  *logDB
@@ -88,12 +90,26 @@ type nodeEvent struct {
 
 func (nc *nodeCase) segs(d string, keys ...string) string {
 	var out []string
+	// height of the best block of this dump: index entries ABOVE it are left-overs of earlier
+	// branches (InMainChain and the by-height getters ignore them since fix a1a69149) and are
+	// not part of the chain state
+	bestH := -1
+	for _, f := range strings.Fields(d) {
+		if strings.HasPrefix(f, "best=") {
+			if b := nc.nm.blocks[strings.TrimPrefix(f, "best=")]; b != nil {
+				bestH = int(b.Height)
+			}
+		}
+	}
 	for _, f := range strings.Fields(d) {
 		for _, k := range keys {
 			if strings.HasPrefix(f, k+"=") {
 				if k == "main" { // the printed index is padded to the highest height known so far
 					for strings.HasSuffix(f, ",-") {
 						f = strings.TrimSuffix(f, ",-")
+					}
+					if parts := strings.Split(strings.TrimPrefix(f, "main="), ","); bestH >= 0 && len(parts) > bestH+1 {
+						f = "main=" + strings.Join(parts[:bestH+1], ",")
 					}
 				}
 				out = append(out, f)
@@ -131,54 +147,100 @@ func (nc *nodeCase) runCrashPoints(maxPoints int) {
 		}
 		c.Count("crash-points")
 		where := fmt.Sprintf("crash after write %d of %d (during event %d: %s %s)", k, len(log), j, nc.events[j].kind, nc.events[j].name+nc.events[j].tgt)
-		n := &node{env: nc.env, db: dbFromLog(log[:k])}
-		err := n.reopen()
-		if err != nil {
-			c.Fail("C19:restart-fails", where+": restart on the surviving writes fails: "+firstWords(err.Error(), 12))
+		evalPoint := func() (string, string) {
+			n := &node{env: nc.env, db: dbFromLog(log[:k])}
+			err := n.reopen()
+			if err != nil {
+				return "C19:restart-fails", where + ": restart on the surviving writes fails: " + firstWords(err.Error(), 12)
+			}
+			nc.sut = n
+			d := nc.dump("ok")
+			if !passed[nc.segs(d, chainKeys...)] {
+				return "C19:recovered-state-never-passed", where + ": recovered " + nc.segs(d, chainKeys...) + " is not a state of the crash-free run"
+			}
+			// deliver everything again: the interrupted event, the ones after it, and the earlier
+			// ones too (blocks that were waiting in the in-memory orphan pool died with the process;
+			// re-delivery of what is already stored must be harmless)
+			bad := false
+			var badSig, badDetail string
+			for _, e := range nc.events {
+				r := nc.applyEvent(n, e)
+				if os.Getenv("CRASHDBG") == fmt.Sprintf("%d:%d", len(log), k) {
+					fmt.Fprintln(os.Stderr, "DBG", e.kind, e.name, e.src, e.tgt, r, nc.segs(nc.dump(r), "best", "just", "tree"))
+				}
+				if r == "panic" {
+					badSig, badDetail = "C19:redelivery-panics", where+": re-delivering "+e.kind+" "+e.name+e.tgt+" panics"
+					bad = true
+					break
+				}
+			}
+			if bad {
+				return badSig, badDetail
+			}
+			n.quiesce()
+			d2 := nc.dump("ok")
+			if nc.segs(d2, "best", "main", "just", "fin") != nc.segs(finalDump, "best", "main", "just", "fin") {
+				// the cached-verification loop of the node runs asynchronously: give it time to
+				// settle before a difference is believed
+				time.Sleep(50 * time.Millisecond)
+				n.quiesce()
+				d2 = nc.dump("ok")
+			}
+			ledgerOf := func(d string) string {
+				return normUtxoDump(nc.segs(d, "utxo")) + " " + nc.segs(d, "contracts")
+			}
+			if nc.segs(d2, "best", "main") != nc.segs(finalDump, "best", "main") {
+				// sub-class: the stored best block lags behind the node's own fork choice
+				sg := "C19:redelivery-diverges"
+				if bh := n.chain.BestBlockHeader(); bh != nil && bh.Hash() != n.chain.VerifNodeCasper().BestChain() {
+					sg += ":best-behind-fork-choice"
+				} else if nc.storedButNotInTree(n, strings.TrimPrefix(nc.segs(finalDump, "best"), "best=")) {
+					// F34b: the blocks of a NON-best branch past its last checkpoint are stored but
+					// are not put back into the checkpoint tree by a restart (and re-delivery takes the
+					// "already processed" exit), so the fork choice cannot select that branch's tip
+					sg += ":stored-tail-not-in-tree"
+				}
+				return sg, where + ": after re-delivery " + nc.segs(d2, "best", "main") + " but the crash-free run ends with " + nc.segs(finalDump, "best", "main")
+			} else if ledgerOf(d2) != ledgerOf(finalDump) {
+				return "C19:redelivery-ledger-differs", where + ": best/main agree but the ledger after re-delivery is " + ledgerOf(d2) + " and the crash-free run ends with " + ledgerOf(finalDump)
+			} else if nc.segs(d2, "just") != nc.segs(finalDump, "just") && nc.storedButNotInTree(n, strings.TrimPrefix(nc.segs(finalDump, "just"), "just=")) {
+				return "C19:redelivery-justified-differs:stored-tail-not-in-tree", where + ": after re-delivery " + nc.segs(d2, "fin", "just") + " but the crash-free run ends with " + nc.segs(finalDump, "fin", "just")
+			} else if nc.segs(d2, "just") != nc.segs(finalDump, "just") {
+				return "C19:redelivery-justified-differs", where + ": after re-delivery " + nc.segs(d2, "fin", "just") + " but the crash-free run ends with " + nc.segs(finalDump, "fin", "just")
+			} else if nc.segs(d2, "fin") != nc.segs(finalDump, "fin") {
+				// F12f is specific: the checkpoint RECORD of the expected finalized checkpoint is
+				// Finalized in the store, only the finalized hash of the chain status is stale. A
+				// finalization that is lost in the checkpoint records themselves is another matter.
+				sg := "C19:redelivery-finalized-differs"
+				want := strings.TrimPrefix(nc.segs(finalDump, "fin"), "fin=")
+				if wb := nc.nm.blocks[want]; wb != nil {
+					h := wb.Hash()
+					if cp, err := n.store.GetCheckpoint(&h); err == nil && cp.Status == state.Finalized {
+						sg += ":status-hash-stale"
+					}
+				}
+				return sg, where + ": after re-delivery " + nc.segs(d2, "fin", "just") + " but the crash-free run ends with " + nc.segs(finalDump, "fin", "just")
+			}
+			return "", ""
+		}
+		sg, detail := evalPoint()
+		if sg != "" && sg != "C19:restart-fails" {
+			// a difference is believed only when a second, independent re-run of the same crash
+			// point (fresh node from the same surviving writes) shows it again: the node's
+			// background loops make single observations timing-dependent under load
+			if sg2, detail2 := evalPoint(); sg2 != sg {
+				c.Count("crash-point-difference-not-reproduced:" + sg)
+				sg, detail = sg2, detail2
+				if sg != "" && sg != "C19:restart-fails" {
+					sg = ""
+				}
+			}
+		}
+		if sg == "C19:restart-fails" {
 			c.Extra["crash_restart_failures"] = fmt.Sprint(c.Extra["crash_restart_failures"], " ", k)
-			continue
 		}
-		nc.sut = n
-		d := nc.dump("ok")
-		if !passed[nc.segs(d, chainKeys...)] {
-			c.Fail("C19:recovered-state-never-passed", where+": recovered "+nc.segs(d, chainKeys...)+" is not a state of the crash-free run")
-		}
-		// deliver everything again: the interrupted event, the ones after it, and the earlier
-		// ones too (blocks that were waiting in the in-memory orphan pool died with the process;
-		// re-delivery of what is already stored must be harmless)
-		bad := false
-		for _, e := range nc.events {
-			r := nc.applyEvent(n, e)
-			if os.Getenv("CRASHDBG") == fmt.Sprintf("%d:%d", len(log), k) {
-				fmt.Fprintln(os.Stderr, "DBG", e.kind, e.name, e.src, e.tgt, r, nc.segs(nc.dump(r), "best", "just", "tree"))
-			}
-			if r == "panic" {
-				c.Fail("C19:redelivery-panics", where+": re-delivering "+e.kind+" "+e.name+e.tgt+" panics")
-				bad = true
-				break
-			}
-		}
-		if bad {
-			continue
-		}
-		n.quiesce()
-		d2 := nc.dump("ok")
-		ledgerOf := func(d string) string {
-			return normUtxoDump(nc.segs(d, "utxo")) + " " + nc.segs(d, "contracts")
-		}
-		if nc.segs(d2, "best", "main") != nc.segs(finalDump, "best", "main") {
-			// sub-class: the stored best block lags behind the node's own fork choice
-			sg := "C19:redelivery-diverges"
-			if bh := n.chain.BestBlockHeader(); bh != nil && bh.Hash() != n.chain.VerifNodeCasper().BestChain() {
-				sg += ":best-behind-fork-choice"
-			}
-			c.Fail(sg, where+": after re-delivery "+nc.segs(d2, "best", "main")+" but the crash-free run ends with "+nc.segs(finalDump, "best", "main"))
-		} else if ledgerOf(d2) != ledgerOf(finalDump) {
-			c.Fail("C19:redelivery-ledger-differs", where+": best/main agree but the ledger after re-delivery is "+ledgerOf(d2)+" and the crash-free run ends with "+ledgerOf(finalDump))
-		} else if nc.segs(d2, "just") != nc.segs(finalDump, "just") {
-			c.Fail("C19:redelivery-justified-differs", where+": after re-delivery "+nc.segs(d2, "fin", "just")+" but the crash-free run ends with "+nc.segs(finalDump, "fin", "just"))
-		} else if nc.segs(d2, "fin") != nc.segs(finalDump, "fin") {
-			c.Fail("C19:redelivery-finalized-differs", where+": after re-delivery "+nc.segs(d2, "fin", "just")+" but the crash-free run ends with "+nc.segs(finalDump, "fin", "just"))
+		if sg != "" {
+			c.Fail(sg, detail)
 		}
 	}
 }
@@ -231,3 +293,22 @@ func genCaseCrash(c *Ctx, mode string) {
 // recordCrashCase makes newNodeCase run the node under test on a write-logging MemDB and
 // record its events, and makes the case end with the crash-point enumeration.
 var recordCrashCase bool
+
+// storedButNotInTree: block `name` is in the node's store, but no node of the checkpoint tree
+// carries its hash (the tree node of an epoch carries the hash of the epoch's latest block).
+func (nc *nodeCase) storedButNotInTree(n *node, name string) bool {
+	b := nc.nm.blocks[name]
+	if b == nil {
+		return false
+	}
+	h := b.Hash()
+	if _, err := n.store.GetBlockHeader(&h); err != nil {
+		return false
+	}
+	for _, t := range n.chain.VerifNodeCasper().VerifNodeTree() {
+		if t.Hash == h {
+			return false
+		}
+	}
+	return true
+}
